@@ -6,14 +6,21 @@
 (*    gum0, dis0 |-> PER QUANTISER/COMBINER: the gumbel / disable options  *)
 (*                   its constructor was given,                            *)
 (*    init |-> OBS,                    observation right after construction*)
-(*    ev   |-> << [act |-> CALL, obs |-> OBS, mc |-> MCSTATE] ... >>]      *)
+(*    ev   |-> << [act |-> CALL, o |-> 1|2 (object addressed; 2 = the copy *)
+(*              made by a "fork"), obs |-> OBS of object 1, obs2 |-> OBS   *)
+(*              of object 2 ([none |-> TRUE] before the fork),             *)
+(*              mc |-> MCSTATE] ... >>]                                    *)
 (* CALL    = [a |-> "train", g] | [a |-> "flag", f, v] | [a |-> "sel", v]  *)
 (*         | [a |-> "upd", temp, hard, gumbel, disable] | [a |-> "fwdbwd"] *)
 (*         | [a |-> "lflag", l, f, v]   layer l: train_<f> / discrete_cost *)
 (*         | [a |-> "lupd", b, temp, hard, gumbel, disable]  quantiser b   *)
 (*         | [a |-> "lsel", b, v]       combiner b: train_selection        *)
+(*         | [a |-> "fork", how]        object 2 := copy.deepcopy(object 1)*)
+(*                                      / pickle round trip                *)
 (* OBS     = [all, nas, net |-> sequences of object ids as yielded by      *)
 (*              parameters() / nas_parameters() / net_parameters(),        *)
+(*            nnas, nnet |-> the same through named_nas_parameters() /     *)
+(*              named_net_parameters(),                                    *)
 (*            p |-> << [id, cls, par, rg, grad, own, q, mo] >>  every      *)
 (*              parameter object, every frozen mask tensor and (cls "dc")  *)
 (*              every layer's discrete_cost switch; par = it is an         *)
@@ -24,7 +31,8 @@
 (*            q |-> << [temp, hard, sampler, live, mb] >> every quantiser /*)
 (*              combiner (sampler classified by its behaviour; mb = block  *)
 (*              of NasControlMC it realises, 0 none)]                      *)
-(* MCSTATE = target state of the NasControlMC edge that is being replayed  *)
+(* MCSTATE = state of the ADDRESSED object in the target state of the      *)
+(*           NasControlMC edge that is being replayed                      *)
 (*           ([rg, opt] and, for the class-level machine, flags) or        *)
 (*           [none |-> TRUE] for free-running traces                       *)
 (*                                                                         *)
@@ -35,6 +43,11 @@
 (* every invariant: a model-level call must be a pointwise update (the     *)
 (* named thing everywhere, everything else as it was IN THAT layer).       *)
 (* Intended gumbel/disable are hidden state tracked here per quantiser.    *)
+(* After a fork BOTH objects are observed after every call: the addressed  *)
+(* one must take the step of the machine from ITS previous state, the      *)
+(* other one must not change at all; the copy must start from the state of *)
+(* the original, share no parameter object with it, and satisfy every      *)
+(* state invariant on its own identity lists.                              *)
 (*                                                                         *)
 (* Verdict (total): "ok" | "C11.<clause> ..." | "known:F07:..." |          *)
 (* "known:F08:..." (bug-compatibility with the Impl = "pinned" operators)  *)
@@ -72,6 +85,10 @@ StateVerdict(kind, o, where) ==
     ELSE IF ~IsPartition(o.all, o.nas, o.net)
     THEN Viol("C11.partition at " \o where \o ": nas=" \o ToString(o.nas) \o " net=" \o ToString(o.net)
               \o " all=" \o ToString(o.all))
+    ELSE IF ~(Range(o.nnas) = Range(o.nas) /\ Len(o.nnas) = Len(o.nas)
+              /\ Range(o.nnet) = Range(o.net) /\ Len(o.nnet) = Len(o.net))
+    THEN Viol("C11.iterators at " \o where \o ": nas_parameters()=" \o ToString(o.nas) \o " named_nas_parameters()="
+              \o ToString(o.nnas) \o " net_parameters()=" \o ToString(o.net) \o " named_net_parameters()=" \o ToString(o.nnet))
     ELSE LET badcls == FirstBad(o.p, LAMBDA x : x.par /\ ((MustBeNas(x.cls) /\ Grp(o, x.id) # "nas")
                                                          \/ (MustBeNet(x.cls) /\ Grp(o, x.id) # "net")))
          IN IF badcls # 0
@@ -224,22 +241,75 @@ StepVerdict(kind, prev, e, g, d, where) ==
         ELSE LET v6 == IF Lvl(v4) = 0 /\ Lvl(v5) = 0 THEN DriftVerdict(kind, prev, o, e, where) ELSE OK
              IN Worse(Worse(v4, v5), v6)
 
-RECURSIVE Walk(_, _, _, _, _, _, _)
-Walk(kind, ev, i, prev, g, d, acc) ==
+\* nothing observable of an object changed (the call was addressed to the other object)
+Untouched(prev, o) ==
+    /\ SameStructure(prev, o)
+    /\ o.all = prev.all /\ o.nas = prev.nas /\ o.net = prev.net /\ o.flags = prev.flags
+    /\ \A i \in Idx(o.p) : o.p[i].rg = prev.p[i].rg /\ o.p[i].grad = "none"
+    /\ \A k \in Idx(o.q) : o.q[k].temp = prev.q[k].temp /\ o.q[k].hard = prev.q[k].hard
+                            /\ o.q[k].sampler = prev.q[k].sampler
+
+\* the copy c of original r: same structure and control state, no shared object
+AllIds(o) == Range(o.all) \cup {o.p[i].id : i \in Idx(o.p)}
+ForkVerdict(kind, r, c, where) ==
+    IF ~(/\ Len(c.p) = Len(r.p) /\ Len(c.q) = Len(r.q)
+         /\ \A i \in Idx(c.p) : /\ c.p[i].cls = r.p[i].cls /\ c.p[i].par = r.p[i].par
+                                 /\ c.p[i].own = r.p[i].own /\ c.p[i].q = r.p[i].q
+         /\ \A k \in Idx(c.q) : c.q[k].live = r.q[k].live)
+    THEN Viol("C11.fork at " \o where \o ": the copy has another structure than the original")
+    ELSE IF AllIds(c) \cap AllIds(r) # {}
+    THEN Viol("C11.fork at " \o where \o ": copy and original share objects " \o ToString(AllIds(c) \cap AllIds(r)))
+    ELSE IF \E i \in Idx(c.p) : c.p[i].rg # r.p[i].rg
+    THEN Viol("C11.fork at " \o where \o ": the copy does not start from the state of the original: "
+              \o ToString(c.p[CHOOSE i \in Idx(c.p) : c.p[i].rg # r.p[i].rg]))
+    ELSE IF c.flags # r.flags \/ \E k \in Idx(c.q) : (c.q[k].temp # r.q[k].temp \/ c.q[k].hard # r.q[k].hard
+                                                       \/ c.q[k].sampler # r.q[k].sampler)
+    THEN Viol("C11.fork at " \o where \o ": switches / sampling options of the copy differ from the original: "
+              \o ToString(c.flags) \o " " \o ToString(c.q))
+    ELSE LET v1 == StateVerdict(kind, c, where \o " (the copy)") IN
+         IF Lvl(v1) = 3 THEN v1
+         ELSE IF \E i \in Idx(c.p) : Frozen(c.p[i].cls) /\ c.p[i].rg
+         THEN Viol("C11.FrozenNeverTrainable at " \o where \o " (the copy)")
+         ELSE OK
+
+\* S = [p1, p2 : previous observations; g1, d1, g2, d2 : intended gumbel/disable per quantiser; f : forked]
+RECURSIVE Walk(_, _, _, _, _)
+Walk(kind, ev, i, S, acc) ==
     IF i > Len(ev) THEN acc
     ELSE LET e  == ev[i]
              a  == e.act
-             \* intended gumbel / disable of every quantiser after the call (only MPS updates carry them)
-             g2 == [k \in Idx(g) |-> IF kind = "mps" /\ ArgFor(a, k).gumbel # NoB THEN B(ArgFor(a, k).gumbel) ELSE g[k]]
-             d2 == [k \in Idx(d) |-> IF kind = "mps" /\ ArgFor(a, k).disable # NoB THEN B(ArgFor(a, k).disable) ELSE d[k]]
-             v  == StepVerdict(kind, prev, e, g2, d2, "event " \o ToString(i) \o " " \o ToString(a))
-         IN  IF Lvl(v) = 3 THEN v
-             ELSE Walk(kind, ev, i + 1, e.obs, g2, d2, Worse(acc, v))
+             where == "event " \o ToString(i) \o " " \o ToString(a)
+         IN
+         IF a.a = "fork" THEN
+              IF S.f THEN Viol("trace: second fork")
+              ELSE IF ~Untouched(S.p1, e.obs)
+              THEN Viol("C11.fork at " \o where \o ": copying the model changed the original")
+              ELSE LET v == ForkVerdict(kind, e.obs, e.obs2, where) IN
+                   IF Lvl(v) = 3 THEN v
+                   ELSE Walk(kind, ev, i + 1,
+                             [S EXCEPT !.p1 = e.obs, !.p2 = e.obs2, !.g2 = S.g1, !.d2 = S.d1, !.f = TRUE], Worse(acc, v))
+         ELSE IF e.o = 2 /\ ~S.f THEN Viol("trace: call on a copy that does not exist")
+         ELSE LET two  == e.o = 2
+                  prev == IF two THEN S.p2 ELSE S.p1
+                  obs  == IF two THEN e.obs2 ELSE e.obs
+                  g    == IF two THEN S.g2 ELSE S.g1
+                  d    == IF two THEN S.d2 ELSE S.d1
+                  \* intended gumbel / disable of every quantiser after the call (only MPS updates carry them)
+                  gn == [k \in Idx(g) |-> IF kind = "mps" /\ ArgFor(a, k).gumbel # NoB THEN B(ArgFor(a, k).gumbel) ELSE g[k]]
+                  dn == [k \in Idx(d) |-> IF kind = "mps" /\ ArgFor(a, k).disable # NoB THEN B(ArgFor(a, k).disable) ELSE d[k]]
+                  w2 == where \o (IF two THEN " on the copy" ELSE IF S.f THEN " on the original" ELSE "")
+                  v  == StepVerdict(kind, prev, [act |-> a, obs |-> obs, mc |-> e.mc], gn, dn, w2)
+              IN  IF S.f /\ ~Untouched(IF two THEN S.p1 ELSE S.p2, IF two THEN e.obs ELSE e.obs2)
+                  THEN Viol("C11.independence at " \o w2 \o ": the call changed the OTHER object")
+                  ELSE IF Lvl(v) = 3 THEN v
+                  ELSE Walk(kind, ev, i + 1,
+                            IF two THEN [S EXCEPT !.p1 = e.obs, !.p2 = obs, !.g2 = gn, !.d2 = dn]
+                                   ELSE [S EXCEPT !.p1 = obs, !.p2 = (IF S.f THEN e.obs2 ELSE S.p2), !.g1 = gn, !.d1 = dn],
+                            Worse(acc, v))
 
 InitVerdict(t) ==
     LET o == t.init
         v1 == StateVerdict(t.kind, o, "construction")
-        nofr == [a |-> "fwdbwd"]
     IN  IF Lvl(v1) = 3 THEN v1
         ELSE IF \E i \in Idx(o.p) : Frozen(o.p[i].cls) /\ o.p[i].rg
         THEN Viol("C11.FrozenNeverTrainable at construction: " \o ToString(o.p[CHOOSE i \in Idx(o.p) : Frozen(o.p[i].cls) /\ o.p[i].rg]))
@@ -253,7 +323,9 @@ InitVerdict(t) ==
 Check(t) ==
     LET v0 == InitVerdict(t)
     IN  IF Lvl(v0) = 3 THEN v0[2]
-        ELSE Walk(t.kind, t.ev, 1, t.init, t.gum0, t.dis0, v0)[2]
+        ELSE Walk(t.kind, t.ev, 1,
+                  [p1 |-> t.init, p2 |-> t.init, g1 |-> t.gum0, d1 |-> t.dis0, g2 |-> t.gum0, d2 |-> t.dis0, f |-> FALSE],
+                  v0)[2]
 
 Init == tid \in 1..Len(Traces) /\ verdict = Check(Traces[tid])
 Next == UNCHANGED <<tid, verdict>>
